@@ -112,9 +112,15 @@ func (s *Store) persist(higher Snapshot, persistOptions StorePersistOptions) (
 		return nil, fmt.Errorf("store: can only persist segmentStack")
 	}
 
-	// If higher segment has no data, we're still clean, so just snapshot.
+	// If higher segment has no data, we're still clean, so just snapshot,
+	// unless a child collection was deleted, which needs a new footer.
 	if ss.isEmpty() {
-		return s.Snapshot()
+		s.m.Lock()
+		droppedChildren := s.footer != nil && s.footer.hasDroppedChildren(ss)
+		s.m.Unlock()
+		if !droppedChildren {
+			return s.Snapshot()
+		}
 	}
 
 	verifAt("store.persist.begin", s)
